@@ -43,7 +43,7 @@ M = [
  ("c17_first_param_only", "C17", "network/simpleHTTP.go", "\t\tfinalURL = strings.ReplaceAll(finalURL, fmt.Sprintf(\"{%s}\", k), fmt.Sprintf(\"%v\", v))", "\t\tfinalURL = strings.Replace(finalURL, fmt.Sprintf(\"{%s}\", k), fmt.Sprintf(\"%v\", v), 1)"),
  ("c18_visit_starts_at_1", "C18", "network/simpleHTTP.go", "\treturn simpleHTTPSelf.recursiveVisit(request, 0)", "\tif simpleHTTPSelf.interceptors.Len() > 2 {\n\t\treturn simpleHTTPSelf.recursiveVisit(request, 1)\n\t}\n\treturn simpleHTTPSelf.recursiveVisit(request, 0)"),
  ("c18_error_ignored", "C18", "network/simpleHTTP.go", "\tif err != nil {\n\t\treturn nil, err\n\t}\n\treturn simpleHTTPSelf.recursiveVisit(request, index+1)", "\tif err != nil && index == 0 {\n\t\treturn nil, err\n\t}\n\treturn simpleHTTPSelf.recursiveVisit(request, index+1)"),
- ("c18_wrap_unconditionally", "C18", "network/simpleHTTP.go", "\tif client.Transport != simpleHTTPSelf.lastTransport {", "\tif client.Transport != nil {"),
+ ("c18_wrap_unconditionally", "C18", "network/simpleHTTP.go", "\tif client.Transport != simpleHTTPSelf.lastTransport && !simpleHTTPSelf.isInChainOf(client.Transport) {", "\tif client.Transport != nil {"),
  ("c18_remove_first_only", "C18", "network/simpleHTTP.go", "\t\tsimpleHTTPSelf.interceptors = *simpleHTTPSelf.interceptors.RemoveItem(interceptor)", "\t\tfor i, ic := range simpleHTTPSelf.interceptors {\n\t\t\tif ic == interceptor {\n\t\t\t\tsimpleHTTPSelf.interceptors = *simpleHTTPSelf.interceptors.Remove(i)\n\t\t\t\tbreak\n\t\t\t}\n\t\t}"),
  ("c19_unstable_sort", "C19", "fp.go", "\tsort.SliceStable(input, func(previous int, next int) bool {\n\t\treturn fn(input[previous], input[next])\n\t})", "\tsort.Slice(input, func(previous int, next int) bool {\n\t\treturn fn(input[previous], input[next])\n\t})"),
  ("c19_descending_nonstrict", "C19", "fp.go", "\t\t\treturn CompareToOrdered(a, b) < 0", "\t\t\treturn CompareToOrdered(a, b) <= 0 && a != b+b"),
@@ -51,7 +51,7 @@ M = [
  ("c19_stream_sort_receiver", "C19", "streamForInterface.go", "func (streamSelf *StreamForInterfaceDef) Sort(fn Comparator[interface{}]) *StreamForInterfaceDef {\n\tresult := streamSelf.Clone()", "func (streamSelf *StreamForInterfaceDef) Sort(fn Comparator[interface{}]) *StreamForInterfaceDef {\n\tresult := streamSelf"),
  ("c20_compose_drops_last", "C20", "fp.go", "\t\tf := fnList[0]\n\t\tnextFnList := fnList[1:]\n\n\t\tif len(fnList) == 1 {", "\t\tf := fnList[0]\n\t\tnextFnList := fnList[1:]\n\t\tif len(fnList) > 4 {\n\t\t\tnextFnList = fnList[1 : len(fnList)-1]\n\t\t}\n\n\t\tif len(fnList) == 1 {"),
  ("c20_match_reverse", "C20", "fp.go", "\tfor _, pattern := range patternMatchingSelf.patterns {\n\t\tvalue := inValue", "\tfor i := len(patternMatchingSelf.patterns) - 1; i >= 0; i-- {\n\t\tpattern := patternMatchingSelf.patterns[i]\n\t\tvalue := inValue"),
- ("c20_call_append_outside_lock", "C20", "fp.go", "\tcurrySelf.callM.Lock()\n\tif !currySelf.isDone.Get() {\n\t\tcurrySelf.args = append(currySelf.args, args...)", "\tif !currySelf.isDone.Get() {\n\t\tcurrySelf.args = append(currySelf.args, args...)\n\t}\n\tcurrySelf.callM.Lock()\n\tif !currySelf.isDone.Get() {"),
+ ("c20_call_append_outside_lock", "C20", "fp.go", "\tcurrySelf.callM.Lock()\n\tverifAt(\"curry.Call.locked\")\n\tif !currySelf.isDone.Get() {\n\t\tcurrySelf.args = append(currySelf.args, args...)", "\tif !currySelf.isDone.Get() {\n\t\tcurrySelf.args = append(currySelf.args, args...)\n\t}\n\tcurrySelf.callM.Lock()\n\tverifAt(\"curry.Call.locked\")\n\tif !currySelf.isDone.Get() {"),
  ("c20_markdone_ignored", "C20", "fp.go", "\tif !currySelf.isDone.Get() {\n\t\tcurrySelf.args = append(currySelf.args, args...)\n\t\tcurrySelf.result", "\tif !currySelf.isDone.Get() || len(args) == 2 {\n\t\tcurrySelf.args = append(currySelf.args, args...)\n\t\tcurrySelf.result"),
  ("c20_regex_on_nonstring", "C20", "fp.go", "\tif Maybe.Just(value).IsNil() || reflect.TypeOf(value).Kind() != reflect.String {\n\t\treturn false\n\t}\n\n\tmatches, err := regexp.MatchString(patternSelf.pattern, (value).(string))", "\tif Maybe.Just(value).IsNil() {\n\t\treturn false\n\t}\n\n\tmatches, err := regexp.MatchString(patternSelf.pattern, fmt.Sprint(value))"),
  ("c08_offer_rlock", "C08", "queue.go", "func (q *ConcurrentQueue[T]) Offer(val T) error {\n\tq.lock.Lock()\n\tdefer q.lock.Unlock()", "func (q *ConcurrentQueue[T]) Offer(val T) error {\n\tq.lock.RLock()\n\tdefer q.lock.RUnlock()"),
@@ -81,7 +81,9 @@ M = [
  ("c13_late_reply_blocks", "C13", "actor.go", "\tcase askSelf.ch <- response:\n\tcase <-askSelf.timeoutCh:\n", "\tcase askSelf.ch <- response:\n"),
  ("c13_close_on_timeout_again", "C13", "actor.go", "\t\tverifAt(\"ask.timeout.fired\")\n", "\t\tverifAt(\"ask.timeout.fired\")\n\t\tdefer close(ch)\n"),
  ("c13_shared_reply_channel", "C13", "actor.go", "\treturn AskNewByOptionsGenerics[T, R](message, make(chan R))", "\tch, _ := askSharedCh.LoadOrStore(fmt.Sprintf(\"%T\", *new(R)), make(chan R, 64))\n\treturn AskNewByOptionsGenerics[T, R](message, ch.(chan R))"),
- ("c09_no_wake_after_panic", "C09", "worker/pool.go", "\t\t\tif (isPanicked || isBelowStandBy) && !workerPoolSelf.IsClosed() {", "\t\t\tif isBelowStandBy && isPanicked && !workerPoolSelf.IsClosed() && workerPoolSelf.workerSizeMaximum > 1 {"),
+ ("c09_no_wake_after_panic", "C09", "worker/pool.go", "\t\t\tif (isPanicked || diedInJob || isBelowStandBy) && !workerPoolSelf.IsClosed() {", "\t\t\tif isBelowStandBy && isPanicked && !workerPoolSelf.IsClosed() && workerPoolSelf.workerSizeMaximum > 1 {"),
+ ("c09_no_wake_after_goexit", "C09", "worker/pool.go", "\t\t\tif (isPanicked || diedInJob || isBelowStandBy) && !workerPoolSelf.IsClosed() {", "\t\t\tif (isPanicked || isBelowStandBy) && !workerPoolSelf.IsClosed() {"),
+ ("c01_clone_named_pointer", "C01", "maybe.go", "\t\tif y.Type() != x.Type() {", "\t\tif false {"),
  ("c09_max_not_enforced", "C09", "worker/pool.go", "\tif workerPoolSelf.workerCount >= maximum ||\n\t\tworkerPoolSelf.workerCount >= workerPoolSelf.workerSizeMaximum {\n\t\treturn\n\t}", "\tif workerPoolSelf.workerCount >= maximum+1 {\n\t\treturn\n\t}"),
  ("c09_job_runs_twice_after_jam", "C09", "worker/pool.go", "\t\t\t\t\tjob()\n\n\t\t\t\t\tworkerPoolSelf.lock.Lock()\n\t\t\t\t\tworkerPoolSelf.workerBusy--", "\t\t\t\t\tjob()\n\t\t\t\t\tif workerPoolSelf.workerBusy > 2 {\n\t\t\t\t\t\tjob()\n\t\t\t\t\t}\n\n\t\t\t\t\tworkerPoolSelf.lock.Lock()\n\t\t\t\t\tworkerPoolSelf.workerBusy--"),
  ("c09_schedule_nil_on_full", "C09", "worker/pool.go", "\tif err == fpgo.ErrQueueIsFull {\n\t\treturn ErrWorkerPoolJobQueueIsFull\n\t}\n\n\treturn err", "\tif err == fpgo.ErrQueueIsFull {\n\t\treturn nil\n\t}\n\n\treturn err"),
